@@ -100,10 +100,28 @@ def r1_registry(ctx, reg: dict[str, str]) -> None:
             r.violation("C03.R1", cq or ident, f"{ident!r}: {attr} = {v}", f"modifier registered as {ident!r} must carry {attr} = {want}")
     mm = prog.module(M)
     rev = mm.assigns.get("reverse_modifier_mapping")
-    if rev and "for identifier, modifier_class in modifier_mapping.items()" in unparse(rev[-1]) and "modifier_class.__name__: identifier" in unparse(rev[-1]):
-        r.ok("C03.R1", M + ".reverse_modifier_mapping", "derived from modifier_mapping (class name → identifier)")
+    # the statement that builds the reverse mapping, interpreted (sa.tabulate) over a stand-in registry of the same shape
+    from ..tabulate import Interp as _Ir
+    reg_dict = next((st.value for st in mm.assigns.get("modifier_mapping", []) if isinstance(getattr(st, "value", None), ast.Dict)), None)
+    derived = False
+    why_rev = "reverse_modifier_mapping is not assigned at module level"
+    if rev and reg_dict is not None:
+        classes_ = {unparse(v): type(unparse(v), (), {}) for v in reg_dict.values}
+        table_ = {k.value: classes_[unparse(v)] for k, v in zip(reg_dict.keys, reg_dict.values) if isinstance(k, ast.Constant)}
+        table_["added-later"] = type("AddedLaterModifier", (), {})  # an identifier the source does not know: only a derivation can map it
+        it_ = _Ir(dict(classes_, modifier_mapping=table_), max_steps=4000)
+        try:
+            it_.run([rev[-1]])
+            got_rev = it_.env.get("reverse_modifier_mapping")
+            want_rev = {v.__name__: k for k, v in table_.items()}
+            derived = got_rev == want_rev
+            why_rev = f"{len([k for k in want_rev if (got_rev or {}).get(k) != want_rev[k]])} class names map to another identifier than the registry gives" if not derived else ""
+        except Exception as ex:  # noqa: BLE001
+            why_rev = f"the statement cannot be evaluated over a stand-in registry: {ex}"
+    if derived:
+        r.ok("C03.R1", M + ".reverse_modifier_mapping", "derived from modifier_mapping (class name → identifier; interpreted over a registry with an added entry)")
     else:
-        r.violation("C03.R1", M + ".reverse_modifier_mapping", "reverse mapping", "reverse mapping is no longer derived from the registry")
+        r.violation("C03.R1", M + ".reverse_modifier_mapping", "reverse mapping", f"reverse mapping is no longer derived from the registry: {why_rev}")
     r.floor("C03.R1", 50)
 
 
@@ -402,39 +420,96 @@ def r4_effects(ctx, reg: dict[str, str]) -> None:
                 st = prog.enclosing_stmt(n)
                 loc = f"{f.module.relpath}:{n.lineno}"
                 want = allowed.get(f.qual)
-                if want and n.attr == want[0] and isinstance(st, ast.Assign) and unparse(st.value) == want[1]:
-                    r.ok("C03.R4", f.qual, unparse(st), loc)
+                if want and n.attr == want[0] and isinstance(st, ast.Assign):
+                    r.ok("C03.R4", f.qual, f"{unparse(st)[:80]} (the documented attribute; its value is decided by interpretation)", loc)
                 else:
                     r.violation("C03.R4", f.qual, unparse(st)[:120], "a modifier writes to the detection item outside the two documented effects (all → value_linking = ConditionAND, neq → negated = True)", loc)
             for x in muts:
                 r.violation("C03.R4", f.qual, short(x, 100), "a modifier mutates the detection item", f"{f.module.relpath}:{x.lineno}")
-    for q, (attr, val) in allowed.items():
-        f = prog.func(q)
-        if not any(isinstance(n, ast.Assign) and unparse(n.targets[0]) == f"self.detection_item.{attr}" and unparse(n.value) == val for n in walk_no_nested(f.node)):
-            r.violation("C03.R4", q, f"self.detection_item.{attr} = {val}", "documented effect missing", f.loc)
-        rets = [x for x in walk_no_nested(f.node) if isinstance(x, ast.Return)]
-        if [unparse(x.value) for x in rets] != ["val"]:
-            r.violation("C03.R4", q, "return val", "list modifier must hand the values back unchanged", f.loc)
-        else:
-            r.ok("C03.R4", q, "values returned unchanged", f.loc)
-    ctor = {  # modifier → returned expression
-        "SigmaCaseSensitiveModifier": "SigmaCasedString.from_sigma_string(val)", "SigmaCIDRModifier": "SigmaCIDRExpression(str(val), source=self.source)",
-        "SigmaCompareModifier": "SigmaCompareExpression(val, self.op, self.source)", "SigmaFieldReferenceModifier": ("SigmaFieldReference(val.to_plain(True))", "SigmaFieldReference(val.to_plain(regex=True))"),  # the characters of the value (C05.R9), not its escaped source form
-        "SigmaExistsModifier": "SigmaExists(val.boolean)", "SigmaRegularExpressionModifier": "SigmaRegularExpression(val.original)",
-        "SigmaTimestampModifier": "SigmaTimestampPart(self.time_part_unit, int(val.number))", "SigmaExpandModifier": "val.insert_placeholders()",
-    }
-    for cn, want in ctor.items():
+    # effects and results: modify() of each of these modifiers interpreted (sa.tabulate, Proxy) on stand-in values
+    import types as _types
+    from ..tabulate import Proxy as _Pe, call_method as _cme, Raised as _Re
+
+    class ConditionAND: pass
+    class _Rec:
+        """a value class of sigma.types: remembers how it was built"""
+        def __init__(self, *a, **k): self.a, self.k = a, k
+        def __eq__(self, o): return type(o) is type(self) and o.a == self.a and o.k == self.k
+        def __hash__(self): return 1
+        def __repr__(self): return f"{type(self).__name__}{self.a}{self.k or ''}"
+    class SigmaCIDRExpression(_Rec): pass
+    class SigmaCompareExpression(_Rec): pass
+    class SigmaFieldReference(_Rec): pass
+    class SigmaExists(_Rec): pass
+    class SigmaRegularExpression(_Rec): pass
+    class SigmaTimestampPart(_Rec): pass
+    class SigmaCasedString(_Rec):
+        @classmethod
+        def from_sigma_string(cls, v): return cls("from_sigma_string", v)
+    class SigmaValueError(Exception):
+        def __init__(self, *a, **k): super().__init__(*a)
+    class _Val:
+        original, boolean, number = "ORIGINAL-TEXT", True, 5.0
+        def to_plain(self, regex=False): return "CHARACTERS" if regex else "ESCAPED-FORM"
+        def insert_placeholders(self): return "WITH-PLACEHOLDERS"
+        def contains_special(self): return False
+        def contains_placeholder(self, *a, **k): return False
+        def __str__(self): return "TEXT-FORM"
+    env_e = {k_: v_ for k_, v_ in locals().items() if isinstance(v_, type) and not k_.startswith("_")}
+    IKe = {"max_steps": 4000, "behaviours": (SigmaValueError,)}
+
+    def run_modify(cn, extra=None, val=None):
+        item = _types.SimpleNamespace(value_linking="OR-BEFORE", negated=False, field="f", modifiers=[], value=["v"])
+        before = dict(vars(item))
+        me = _Pe(prog, f"{M}.{cn}", env_e, dict({"detection_item": item, "applied_modifiers": [], "source": "SRC"}, **(extra or {})), interp_kwargs=IKe)
+        v = _Val() if val is None else val
+        try:
+            out = _cme(prog, f"{M}.{cn}", "modify", me, env_e, v, interp_kwargs=IKe)
+        except _Re as ex:
+            out = f"raises {ex}"
+        changed = {k_: v_ for k_, v_ in vars(item).items() if before.get(k_, "<new>") is not v_ and before.get(k_, "<new>") != v_}
+        return out, changed, v
+    for cn, want_change in (("SigmaAllModifier", {"value_linking": ConditionAND}), ("SigmaNegateModifier", {"negated": True})):
         f = prog.func(f"{M}.{cn}.modify")
-        rets = [unparse(x.value) for x in walk_no_nested(f.node) if isinstance(x, ast.Return)]
-        if (rets == [want]) if isinstance(want, str) else (len(rets) == 1 and rets[0] in want):
-            r.ok("C03.R4", f.qual, f"returns {rets[0]}", f.loc)
+        vals = ["a", "b"]
+        out, changed, v = run_modify(cn, val=vals)
+        if changed != want_change:
+            r.violation("C03.R4", f.qual, f"self.detection_item.{list(want_change)[0]} = {list(want_change.values())[0] if not isinstance(list(want_change.values())[0], type) else list(want_change.values())[0].__name__}", f"documented effect missing or another attribute written: the detection item changes by {changed!r}", f.loc)
         else:
-            r.violation("C03.R4", f.qual, f"returns {rets}", f"type-changing modifier must return {want} (content of the value unchanged)", f.loc)
+            r.ok("C03.R4", f.qual, f"exactly detection_item.{list(want_change)[0]} is set (interpreted)", f.loc)
+        if out is not vals or vals != ["a", "b"]:
+            r.violation("C03.R4", f.qual, "return val", f"list modifier must hand the values back unchanged: returns {out!r}", f.loc)
+        else:
+            r.ok("C03.R4", f.qual, "values returned unchanged", f.loc)
+    the_val = _Val()
+    ctor = {  # modifier → (instance attributes, specified result)
+        "SigmaCaseSensitiveModifier": ({}, SigmaCasedString("from_sigma_string", the_val)),
+        "SigmaCIDRModifier": ({}, SigmaCIDRExpression("TEXT-FORM", source="SRC")),
+        "SigmaCompareModifier": ({"op": "OP"}, SigmaCompareExpression(the_val, "OP", "SRC")),
+        "SigmaFieldReferenceModifier": ({}, SigmaFieldReference("CHARACTERS")),  # the characters of the value (C05.R9), not its escaped source form
+        "SigmaExistsModifier": ({}, SigmaExists(True)),
+        "SigmaRegularExpressionModifier": ({}, SigmaRegularExpression("ORIGINAL-TEXT")),
+        "SigmaTimestampModifier": ({"time_part_unit": "UNIT"}, SigmaTimestampPart("UNIT", 5)),
+        "SigmaExpandModifier": ({}, "WITH-PLACEHOLDERS"),
+    }
+    for cn, (extra, want) in ctor.items():
+        f = prog.func(f"{M}.{cn}.modify")
+        out, changed, _v = run_modify(cn, extra, the_val)
+        same = (out == want) and (type(out) is type(want)) and not changed
+        if same and isinstance(out, _Rec) and any(type(x) is float for x in out.a):
+            same = False
+        if same:
+            r.ok("C03.R4", f.qual, f"returns {want!r} for the stand-in value (interpreted)", f.loc)
+        else:
+            r.violation("C03.R4", f.qual, f"returns {out!r}" + (f", detection item changed by {changed!r}" if changed else ""), f"type-changing modifier must return {want!r} (content of the value unchanged)", f.loc)
     f = prog.func(M + ".SigmaRegularExpressionFlagModifier.modify")
-    if "val.add_flag(self.flag)" in unparse(f.node) and unparse(f.node.body[-1]) == "return val":
+    flags_added: list = []
+    rx_val = _types.SimpleNamespace(add_flag=lambda fl: flags_added.append(fl))
+    out, changed, _v = run_modify("SigmaRegularExpressionFlagModifier", {"flag": "THE-FLAG"}, rx_val)
+    if out is rx_val and flags_added == ["THE-FLAG"] and not changed:
         r.ok("C03.R4", f.qual, "adds exactly its own flag", f.loc)
     else:
-        r.violation("C03.R4", f.qual, "val.add_flag(self.flag); return val", "flag modifier must add exactly its class flag", f.loc)
+        r.violation("C03.R4", f.qual, "val.add_flag(self.flag); return val", f"flag modifier must add exactly its class flag: flags added {flags_added}, returns {'the expression' if out is rx_val else repr(out)}", f.loc)
     # guards of the 'only unmodified values' modifiers
     for cn in ("SigmaRegularExpressionModifier", "SigmaCIDRModifier", "SigmaExistsModifier"):
         f = prog.func(f"{M}.{cn}.modify")
